@@ -225,6 +225,23 @@ type Combined struct {
 	MWE map[uint64]WithEmbedded `serix:"mwe,lenPrefix=uint8"`
 }
 
+// ---- explicit ordering flags (registered per type)
+
+type LexFalseMap map[uint64]NamedString // WithLexicalOrdering(false)
+type LexTrueMap map[NamedString]uint32  // WithLexicalOrdering(true) + bounds
+type LexFalseList []uint32              // WithLexicalOrdering(false) + lexical/no-dup validation: checked, never sorted
+type LexFalsePlain []int16              // WithLexicalOrdering(false), no rules: order is kept
+
+type OrdMaps struct {
+	A LexFalseMap            `serix:"a"`
+	B LexTrueMap             `serix:"b"`
+	C map[int64]uint8        `serix:"c,lenPrefix=uint16"` // registered: flag false, max 6, no length prefix type
+	D LexFalseList           `serix:"d"`
+	E map[string]LexFalseMap `serix:"e,lenPrefix=uint8"`
+	F LexFalsePlain          `serix:"f"`
+	G map[uint64]bool        `serix:"g,lenPrefix=uint8,maxLen=4"` // registered: flag false only (tag creates the rules)
+}
+
 func tof[T any]() reflect.Type { return reflect.TypeOf((*T)(nil)).Elem() }
 
 func must(err error) {
@@ -292,6 +309,15 @@ func NewStatic() *Universe {
 	must(api.RegisterTypeSettings([]uint16{}, ts.WithLengthPrefixType(serix.LengthPrefixTypeAsUint16).WithMaxLen(5)))
 	must(api.RegisterTypeSettings("", ts.WithLengthPrefixType(serix.LengthPrefixTypeAsUint32)))
 	must(api.RegisterTypeSettings(map[int64]NamedBytes{}, ts.WithLengthPrefixType(serix.LengthPrefixTypeAsUint16)))
+
+	must(api.RegisterTypeSettings(LexFalseMap{}, ts.WithLengthPrefixType(serix.LengthPrefixTypeAsByte).WithLexicalOrdering(false)))
+	must(api.RegisterTypeSettings(LexTrueMap{}, ts.WithLengthPrefixType(serix.LengthPrefixTypeAsUint16).WithLexicalOrdering(true).WithMinLen(1).WithMaxLen(4)))
+	must(api.RegisterTypeSettings(map[int64]uint8{}, ts.WithLexicalOrdering(false).WithMaxLen(6)))
+	must(api.RegisterTypeSettings(LexFalseList{}, ts.WithLengthPrefixType(serix.LengthPrefixTypeAsByte).WithLexicalOrdering(false).
+		WithArrayRules(&serix.ArrayRules{ValidationMode: serializer.ArrayValidationModeLexicalOrdering | serializer.ArrayValidationModeNoDuplicates})))
+	must(api.RegisterTypeSettings(LexFalsePlain{}, ts.WithLengthPrefixType(serix.LengthPrefixTypeAsUint16).WithLexicalOrdering(false)))
+	must(api.RegisterTypeSettings(map[uint64]bool{}, ts.WithLexicalOrdering(false)))
+	must(api.RegisterTypeSettings(map[string]uint16{}, ts.WithLengthPrefixType(serix.LengthPrefixTypeAsUint32).WithLexicalOrdering(false).WithMaxLen(3)))
 
 	// schemas
 	namedString := str(tof[NamedString](), 2)
@@ -408,7 +434,37 @@ func NewStatic() *Universe {
 		&Field{Name: "OL", Key: "ol", S: tagged(slice(reflect.TypeOf([]Opt{}), 1, Rules{}, optS))},
 		&Field{Name: "MWE", Key: "mwe", S: tagged(mapOf(1, Rules{}, sc(Uint64), withEmbedded))},
 	)
-	u.Shapes = []*Shape{withEmbedded, withEmbeddedPtr, ptr(withEmbeddedPtr), withInlined, optS, ptr(bigTime), mapsBin, mapsJSON, lists, combined,
+	lexFalseMap := &Shape{Kind: Map, T: tof[LexFalseMap](), LP: 1, R: Rules{LexSet: true}, Key: sc(Uint64), Elem: namedString}
+	lexTrueMap := &Shape{Kind: Map, T: tof[LexTrueMap](), LP: 2, R: Rules{LexSet: true, AutoOrder: true, Min: 1, Max: 4}, Key: namedString, Elem: sc(Uint32)}
+	lexFalseList := slice(tof[LexFalseList](), 1, Rules{LexSet: true, ValOrder: true, NoDup: true}, sc(Uint32))
+	lexFalsePlain := slice(tof[LexFalsePlain](), 2, Rules{LexSet: true}, sc(Int16))
+	ordMaps := strct(tof[OrdMaps](), nil,
+		&Field{Name: "A", Key: "a", S: lexFalseMap},
+		&Field{Name: "B", Key: "b", S: lexTrueMap},
+		&Field{Name: "C", Key: "c", S: tagged(mapOf(2, Rules{LexSet: true, Max: 6}, sc(Int64), sc(Uint8)))},
+		&Field{Name: "D", Key: "d", S: lexFalseList},
+		&Field{Name: "E", Key: "e", S: tagged(mapOf(1, Rules{}, plainString4, lexFalseMap))},
+		&Field{Name: "F", Key: "f", S: lexFalsePlain},
+		&Field{Name: "G", Key: "g", S: taggedMM(mapOf(1, Rules{LexSet: true, Max: 4}, sc(Uint64), sc(Bool)))},
+	)
+	// top-level values with serix.WithTypeSettings (option > registry)
+	topMap := mapOf(1, Rules{LexSet: true, Max: 3}, plainString4, sc(Uint16)) // registered: lp32, flag false, max 3; option: lp8
+	topMap.Top = &TopSettings{LP: 1}
+	topMap2 := mapOf(4, Rules{LexSet: true, AutoOrder: true, Min: 1}, plainString4, sc(Uint16)) // option: flag true + rules{min 1} replace max 3
+	topMap2.Top = &TopSettings{HasRules: true, R: Rules{LexSet: true, AutoOrder: true, Min: 1}}
+	topMap3 := &Shape{Kind: Map, T: tof[LexTrueMap](), LP: 2, R: Rules{LexSet: true, Min: 1, Max: 4}, Key: namedString, Elem: sc(Uint32)} // option flips the flag to false
+	topMap3.Top = &TopSettings{R: Rules{LexSet: true}}
+	topSlice := slice(reflect.TypeOf([]uint16{}), 1, Rules{LexSet: true, ValOrder: true}, sc(Uint16)) // registered lp16 max5; option: lp8, flag false, lexical validation
+	topSlice.Top = &TopSettings{LP: 1, HasRules: true, R: Rules{LexSet: true, ValOrder: true}}
+	topSlice2 := slice(tof[LexFalseList](), 1, Rules{LexSet: true, AutoOrder: true, ValOrder: true, NoDup: true}, sc(Uint32)) // option turns auto ordering on
+	topSlice2.Top = &TopSettings{R: Rules{LexSet: true, AutoOrder: true}}
+	topBytes := bytesOf(goTypes[Bytes], 2)
+	topBytes.R = Rules{Min: 1, Max: 40}
+	topBytes.Top = &TopSettings{LP: 2, HasRules: true, R: Rules{Min: 1, Max: 40}}
+	topString := str(goTypes[String], 1) // registered lp32; option lp8
+	topString.Top = &TopSettings{LP: 1}
+
+	u.Shapes = []*Shape{ordMaps, topMap, topMap2, topMap3, topSlice, topSlice2, topBytes, topString, withEmbedded, withEmbeddedPtr, ptr(withEmbeddedPtr), withInlined, optS, ptr(bigTime), mapsBin, mapsJSON, lists, combined,
 		circle, ptr(rect), accB}
 	return u
 }
